@@ -68,3 +68,33 @@ Proof.
   intros p q Hp Hq. subst pos. rewrite (Hc p Hp), (Hc q Hq).
   repeat match goal with |- context [if ?b then 1 else 0] => destruct b end; lia.
 Qed.
+
+Lemma In_memz x l : In x l -> memz x l = true.
+Proof.
+  induction l as [|y l IH]; simpl; [tauto|]. intros [->|H].
+  - rewrite Z.eqb_refl. reflexivity.
+  - rewrite (IH H). apply orb_true_r.
+Qed.
+
+(* round robin places only on registered pilots: if every pilot in self._pids
+   has role ADDED (the registration invariant of add_pilots/remove_pilots),
+   every placement of one _schedule_tasks call goes to a pilot with role ADDED *)
+Lemma rr_loop_only_added pl pids :
+  pids <> [] -> (forall pid, In pid pids -> p_role (getp pid pl) = RAdded) ->
+  forall ts idx idx' ok ev, 0 <= idx ->
+    rr_loop pl pids idx ts = (idx', ok, ev) ->
+    forallb (fun a => role_eqb (a_role a) RAdded && memz (a_pid a) pids) (asgs_of ev) = true.
+Proof.
+  intros Hne Hr. induction ts as [|t ts IH]; intros idx idx' ok ev Hidx H; simpl in H.
+  - injection H as <- <- <-. reflexivity.
+  - destruct (rr_loop pl pids ((if Z.of_nat (length pids) <=? idx then 0 else idx) + 1) ts)
+      as [[i2 ok2] ev2] eqn:E.
+    injection H as <- <- <-. cbn [asgs_of forallb].
+    set (i := if Z.of_nat (length pids) <=? idx then 0 else idx) in *.
+    assert (Hk : 0 < Z.of_nat (length pids)) by (destruct pids; [congruence|cbn [length]; lia]).
+    assert (Hi : 0 <= i < Z.of_nat (length pids)) by (subst i; split_ifs; lia).
+    assert (Hin : In (nth (Z.to_nat i) pids 0) pids) by (apply nth_In; lia).
+    unfold snap. cbn [a_role a_pid]. rewrite (Hr _ Hin). cbn [role_eqb andb].
+    pose proof (In_memz _ _ Hin) as Hm.
+    rewrite Hm. cbn [andb]. apply (IH (i + 1) i2 ok2 ev2); [lia|exact E].
+Qed.
